@@ -107,11 +107,18 @@ def run_harnesses(pid, harnesses, tier, cov, cmds, scratch_root):
         # dependency build cache shared between runs (only third-party crates are reused: the scratch copy of btdht has a
         # fresh path every run, so the crate under proof is always rebuilt from /repo's current working tree)
         env = dict(os.environ, CARGO_NET_OFFLINE="true", CARGO_TARGET_DIR=os.path.join(scratch_root, "kani-deps-cache"))
+        # Kani runs are serialised across processes: they share the dependency build cache
+        import fcntl
+        lock = open(os.path.join(scratch_root, "kani.lock"), "w")
+        fcntl.flock(lock, fcntl.LOCK_EX)
         try:
             r = subprocess.run(cmd, cwd=dst, capture_output=True, text=True, timeout=3000, env=env)
         except subprocess.TimeoutExpired:
             out["inconclusive"].append("kx: cargo kani timeout")
             return out
+        finally:
+            fcntl.flock(lock, fcntl.LOCK_UN)
+            lock.close()
         cmds.append("CARGO_NET_OFFLINE=true " + " ".join(cmd) + "   # in a scratch copy of /repo with kx/harness/* appended")
         text = r.stdout + "\n" + r.stderr
         res = _parse(text)
